@@ -80,6 +80,15 @@ func v1Type(r *rand.Rand) *tdesc {
 	return t
 }
 
+// a key type of string kind that also has text methods: encoding/json uses the string itself
+type v1Level string
+
+func (l v1Level) MarshalText() ([]byte, error) { return []byte("level-" + string(l)), nil }
+func (l *v1Level) UnmarshalText(b []byte) error {
+	*l = v1Level(strings.TrimPrefix(string(b), "level-"))
+	return nil
+}
+
 // interfaces that merely include the marshal methods, and implementations that tolerate a nil receiver
 type v1Entity interface {
 	MarshalJSON() ([]byte, error)
@@ -247,6 +256,44 @@ func v1Exec(c *v1Case) {
 		jsonv1.HTMLEscape(&b1, in)
 		stdjson.HTMLEscape(&b2, in)
 		step("HTMLEscape", res(true, b1.Bytes()), res(true, b2.Bytes()))
+	case "mapkeys":
+		// key types beyond strings and integers: a string kind with a text method, floats,
+		// pointers, interfaces
+		var v any
+		var tgt1, tgt2 any
+		switch r.IntN(5) {
+		case 0:
+			v = map[v1Level]int{"hi": 2, "lo": 1}
+			tgt1, tgt2 = new(map[v1Level]int), new(map[v1Level]int)
+		case 1:
+			v = map[float64]string{1.5: "a"}
+			tgt1, tgt2 = new(map[float64]string), new(map[float64]string)
+		case 2:
+			k := "p"
+			v = map[*string]int{&k: 1}
+			tgt1, tgt2 = new(map[*string]int), new(map[*string]int)
+		case 3:
+			v = map[any]int{"a": 1}
+			tgt1, tgt2 = new(map[any]int), new(map[any]int)
+		default:
+			v = map[bool]int{true: 1}
+			tgt1, tgt2 = new(map[bool]int), new(map[bool]int)
+		}
+		c.Type = fmt.Sprintf("%T", v)
+		b1, e1 := jsonv1.Marshal(v)
+		b2, e2 := stdjson.Marshal(v)
+		step("Marshal", res(e1 == nil, b1), res(e2 == nil, b2))
+		in := []byte([]string{`{"hi":2}`, `{}`, `{"1.5":"a"}`, `null`, `{"true":1}`}[r.IntN(5)])
+		c.Input = ints(in)
+		e1, e2 = jsonv1.Unmarshal(in, tgt1), stdjson.Unmarshal(in, tgt2)
+		r1, r2 := []byte{}, []byte{}
+		if e1 == nil {
+			r1 = render2(tgt1)
+		}
+		if e2 == nil {
+			r2 = render2(tgt2)
+		}
+		step("Unmarshal", res(e1 == nil, r1), res(e2 == nil, r2))
 	case "unmarshal-quoted":
 		// the `string` option: what may stand between the quotes
 		type Q struct {
@@ -631,7 +678,7 @@ func driveV1(args map[string]string) error {
 			r := newRng(seed, uint64(3100+w))
 			for i := w; i < n; i += workers {
 				c := v1Case{ID: i + 1, Prop: "C09", Seed: []uint64{r.Uint64(), r.Uint64()}}
-				c.Kind = []string{"bytes", "bytes", "marshal", "marshal", "unmarshal", "unmarshal", "decoder", "decoder", "encoder", "unmarshal-folded", "marshal-iface", "unmarshal-quoted"}[r.IntN(12)]
+				c.Kind = []string{"bytes", "bytes", "marshal", "marshal", "unmarshal", "unmarshal", "decoder", "decoder", "encoder", "unmarshal-folded", "marshal-iface", "unmarshal-quoted", "mapkeys"}[r.IntN(13)]
 				if c.Kind == "bytes" || c.Kind == "decoder" {
 					cfg := randCfg(r)
 					cfg.bigNums = r.IntN(3) == 0
